@@ -56,6 +56,9 @@ fn run(routine: &str, rest: &[String]) -> String {
         "c03_skip_recount" => c03::c03_skip_recount(rest),
         "first_line_hazard" => c01::first_line_hazard(rest),
         "cr_hazard" => c01::cr_hazard(rest),
+        "flush_discipline" => public::flush_discipline(rest),
+        "multi_remove" => bar::multi_remove(rest),
+        "clip_hazard" => c01::clip_hazard(rest),
         #[cfg(feature = "hooks")]
         "pad_field" => c12::pad_field(rest),
         "io_fail_bar" => c18::io_fail_bar(rest),
